@@ -399,6 +399,8 @@ class RefSFTP:
                 p = b'/' + p
             if p == b'/.':
                 p = b'/'
+            if getattr(self, 'realpath_answer', None) is not None:
+                p = self.realpath_answer        # a server that decides what the "real" path is
             self._send(bytes([FXP['NAME']]) + u32(rid) + u32(1) + s(p) + s(p) + enc_attrs())
         elif t == FXP['MKDIR']:
             self.dirs.setdefault(f['path'], [])
